@@ -101,7 +101,7 @@ CLAIMS = {
   design_ref="§6 C16"),
  "C08": dict(
   category="proof",
-  text="Partial. Input side proved for all token sequences: each JSON token becomes exactly the node the statement describes (addTextChild: a number's text is strconv's shortest 'f' rendering of the float64 token, a boolean's is true/false, a string's is the string, null is empty, with the matching value-type flag; addElementChild: name and container flag; parseVal hands the token on unchanged and names a member element by the key token) and each XML token likewise (addNonTextChild: local name, namespace URI and the prefix bound to it, the xmlns exception, an undeclared namespace is an error; addTextChild: a text node with exactly the given text, never dropped; parse passes every attribute's own name and value and attaches attributes before children). Output side: isChildArray decides array-ness of a JSON node by its type flag alone (F7 fixed).",
+  text="Partial. Input side proved for all token sequences: each JSON token becomes exactly the node the statement describes (addTextChild: a number's text is strconv's shortest 'f' rendering of the float64 token, a boolean's is true/false, a string's is the string, null is empty, with the matching value-type flag; addElementChild: name and container flag; parseVal hands the token on unchanged and names a member element by the key token) and each XML token likewise (addNonTextChild: local name, namespace URI and the prefix bound to it, the xmlns exception, an undeclared namespace is an error; addTextChild: a text node with exactly the given text, never dropped; parse passes every attribute's own name and value and attaches attributes before children). Output side: isChildArray decides array-ness of a JSON node by its type flag alone (F7 fixed); isChildText is true exactly when the node has a text child and no element child (attributes ignored), against two recursive predicates over the sibling chain.",
   note="NOT decided: the recursive output functions (nodeToInterface, JSONify2, InnerText) as a whole, XML namespace scoping (finding F16 of the design round: the URI-to-prefix map is document-global), duplicate JSON keys. strconv.FormatFloat/FormatBool, encoding/json and encoding/xml token contents are assumed.",
   technique="contract-based deductive verification: per-token postconditions and caller-side assertions, SMT",
   design_ref="§6 C08"),
@@ -119,8 +119,8 @@ CLAIMS = {
   design_ref="§6 C02"),
  "C03": dict(
   category="proof",
-  text="Partial. (1) Panic-freedom: for 121 functions under contract (stream readers, flat-file, fixed-length, csv, EDI, node tree, navigator, date-time, javascript, transform.Read) every generated safety obligation is discharged for all inputs satisfying the function's precondition: no nil dereference, no index or slice bound violation, no failing type assertion, no reachable explicit panic, no division by zero. (2) Termination of loops: 21 loops carry a proved variant (obligations loopK.decreases: rune slicing, buffer compaction, the xpath backward scan incl. its nested quote loop, javascript argument loop, envelope row loops, the old csv reader's row-skipping loop under a delimiter the decoder accepts - which validateFileDecl is proved to establish, F4a fixed - and - under the stated assumption that every input is finite, ghost inputLeft - the token/line consuming loops of the JSON, XML, fixed-length and EDI readers); 9 range loops terminate by construction. (3) The error-class postconditions whose violation makes the documented read loop spin (a fatal condition reported as a continuable error). F3, F11, F12, F13 (panics escaping Read) and F4a (hang on a delimiter the csv decoder refuses) were found by these obligations and are fixed; the reflection call of custom functions is covered by assumed contracts on reflect (argument count must fit; Elem only of the variadic tail).",
-  note="NOT decided: termination of 7 loops listed in evidence (sibling-chain walks, the hierarchy readers' main loops), recursion (no recursion variants: seeded change C03_a2, unbounded template recursion, is missed), functions not under contract (most of the transform package's evaluation code); assignability of custom-function argument types to parameter types (checked by the repaired code, not modelled in the reflect contracts). 16 contracted functions with still-undischarged safety obligations are excluded and named in DESIGN.md 0.2. Preconditions that come from schema validation are assumed. 'Finite input' is an assumption on the library readers (a successful read strictly decreases inputLeft >= 0).",
+  text="Partial. (1) Panic-freedom: for 131 functions under contract (stream readers, flat-file, fixed-length, csv, EDI, node tree, navigator, date-time, javascript, transform.Read) every generated safety obligation is discharged for all inputs satisfying the function's precondition: no nil dereference, no index or slice bound violation, no failing type assertion, no reachable explicit panic, no division by zero. (2) Termination of loops: 21 loops carry a proved variant (obligations loopK.decreases: rune slicing, buffer compaction, the xpath backward scan incl. its nested quote loop, javascript argument loop, envelope row loops, the old csv reader's row-skipping loop under a delimiter the decoder accepts - which validateFileDecl is proved to establish, F4a fixed - and - under the stated assumption that every input is finite, ghost inputLeft - the token/line consuming loops of the JSON, XML, fixed-length and EDI readers); 9 range loops terminate by construction. (3) The error-class postconditions whose violation makes the documented read loop spin (a fatal condition reported as a continuable error). F3, F11, F12, F13 (panics escaping Read) and F4a (hang on a delimiter the csv decoder refuses) were found by these obligations and are fixed; the reflection call of custom functions is covered by assumed contracts on reflect (argument count must fit; Elem only of the variadic tail).",
+  note="NOT decided: termination of 7 loops listed in evidence (sibling-chain walks, the hierarchy readers' main loops), recursion (no recursion variants: seeded change C03_a2, unbounded template recursion, is missed), functions not under contract (most of the transform package's evaluation code); assignability of custom-function argument types to parameter types (checked by the repaired code, not modelled in the reflect contracts). 13 contracted functions with still-undischarged safety obligations are excluded and named in DESIGN.md 0.2. Preconditions that come from schema validation are assumed. 'Finite input' is an assumption on the library readers (a successful read strictly decreases inputLeft >= 0).",
   technique="contract-based deductive verification: automatically generated safety obligations per SSA instruction, loop variants, SMT",
   design_ref="§6 C03"),
 }
